@@ -23,7 +23,7 @@ use vcommon::{fingerprint, CheckDef, ClassPlan, Ctx, Outcome, PassInfo, Tape, Ti
 pub static DEF: CheckDef = CheckDef {
     id: "C15",
     level: "fault_enumeration",
-    rule: "Cases: 12 fixed scenarios in which one client (the victim) has operations of every handle type in flight or deliberately left pending (server loops, calls held by the callee, event/item/bus-event/discoverer streams, send_ready without credit, establish, lifetime end, wait_for_object, request bursts), run with a peer client against a real broker under generated schedules. Faults: for each (scenario, schedule) a fault-free run measures T completed transport operations (receive/send/flush) of the victim after the handshake; EVERY k in 0..T is executed with an injected error and with a disconnect (class fault-sweep, exhaustive over k); classes fault-random and clean add generated schedules and the four clean causes (Handle::shutdown, last handle dropped, BrokerHandle::shutdown, BrokerHandle::shutdown_connection) and the combination Handle::shutdown + BrokerHandle::shutdown at generated program points (simulator step index). Non-trivial: >=3 application operations of the victim pending when the client stops. Distinct = scenario + cause + point + schedule.",
+    rule: "Cases: 13 fixed scenarios in which one client (the victim) has operations of every handle type in flight or deliberately left pending (server loops, calls held by the callee, event/item/bus-event/discoverer streams, send_ready without credit, establish, lifetime end, wait_for_object, request bursts), run with a peer client against a real broker under generated schedules. Faults: for each (scenario, schedule) a fault-free run measures T completed transport operations (receive/send/flush) of the victim after the handshake; EVERY k in 0..T is executed with an injected error and with a disconnect (class fault-sweep, exhaustive over k); classes fault-random and clean add generated schedules and the four clean causes (Handle::shutdown, last handle dropped, BrokerHandle::shutdown, BrokerHandle::shutdown_connection) and the combination Handle::shutdown + BrokerHandle::shutdown at generated program points (simulator step index). Classes fault-generated / clean-generated take a GENERATED multi-client program (C06's generator, operations that stop clients or the broker taken out; client 0 is the victim) instead of a fixed scenario, measure its fault-free run under its own schedule and inject the fault / apply the clean cause at a generated point of that run. Non-trivial: >=3 application operations of the victim pending when the client stops. Distinct = scenario + cause + point + schedule.",
     assumptions: &[
         "a transport operation = a receive that yielded, a send_start, a flush that completed, on the victim's side of the repository's channel transport; the handshake is not part of the fault domain",
         "'error' fails one operation and leaves the peer unaware until the client drops the transport; 'disconnect' closes the transport under the client at that operation",
@@ -34,7 +34,7 @@ pub static DEF: CheckDef = CheckDef {
     case,
     render,
     crashy: false,
-    floors: &[(">=3-pending-at-stop", 0.30), ("fault:receive", 0.08), ("fault:send", 0.06), ("fault:flush", 0.06), ("probe:values>=5", 0.12), ("cause:shutdown-request", 0.04), ("cause:last-handle-dropped", 0.04), ("cause:broker-shutdown", 0.04), ("cause:broker-shutdown-connection", 0.04), ("cause:shutdown-request+broker-shutdown", 0.03), ("victim-transport:bounded", 0.2), ("victim-transport:bounded<=2", 0.08), ("crossing-shutdowns-under-backpressure", 0.008)],
+    floors: &[(">=3-pending-at-stop", 0.25), ("scenario:generated", 0.25), ("fault:receive", 0.08), ("fault:send", 0.06), ("fault:flush", 0.06), ("probe:values>=5", 0.12), ("cause:shutdown-request", 0.04), ("cause:last-handle-dropped", 0.04), ("cause:broker-shutdown", 0.04), ("cause:broker-shutdown-connection", 0.04), ("cause:shutdown-request+broker-shutdown", 0.03), ("victim-transport:bounded", 0.2), ("victim-transport:bounded<=2", 0.08), ("crossing-shutdowns-under-backpressure", 0.008)],
     extra: Some(extra),
     extra_coverage: Some(extra_coverage),
 };
@@ -51,12 +51,15 @@ fn plan(t: Tier) -> Vec<ClassPlan> {
         ClassPlan { class: "fault-random", cases: 8_000 * k, min_len: 12, max_len: 18 },
         ClassPlan { class: "clean", cases: 10_000 * k, min_len: 12, max_len: 18 },
         ClassPlan { class: "clean-late-abort", cases: 800 * k, min_len: 12, max_len: 18 },
+        ClassPlan { class: "fault-generated", cases: 9_000 * k, min_len: 40, max_len: 400 },
+        ClassPlan { class: "clean-generated", cases: 6_000 * k, min_len: 40, max_len: 400 },
     ]
 }
 
 // ---------------------------------------------------------------------------------------------
 // scenarios
 
+#[derive(Clone, Debug)]
 pub struct Scenario {
     pub name: &'static str,
     pub clients: Vec<ClientSpec>,
@@ -260,12 +263,17 @@ pub struct Case15 {
     /// ones of this FIFO size (None = the scenario's own choice)
     pub victim_fifo: Option<usize>,
     pub peer_fifo: Option<usize>,
+    /// classes *-generated: the scenario is a generated multi-client program (client 0 = victim)
+    pub gen: Option<std::sync::Arc<Scenario>>,
 }
 
 impl Case15 {
     /// The scenario with this case's transport choice applied.
     fn scenario(&self) -> Scenario {
-        let mut sc = scenario(self.scenario);
+        let mut sc = match &self.gen {
+            Some(g) => (**g).clone(),
+            None => scenario(self.scenario),
+        };
         for (i, cl) in sc.clients.iter_mut().enumerate() {
             if let Some(n) = if i == 0 { self.victim_fifo } else { self.peer_fifo } {
                 cl.tkind = TKind::Bounded(n);
@@ -275,7 +283,61 @@ impl Case15 {
     }
 }
 
+/// A generated program as a scenario: client 0 is the victim; operations that stop clients or the
+/// broker are taken out (the cause under test is the only stop), everything else is C06's mix.
+fn generated_scenario(tape: &[u8]) -> (Scenario, u64, u64, u8) {
+    let allow = Allow { broker_shutdown_in_flight: false, client_vs_broker_shutdown: false, ..Allow::from_env() };
+    let p = decode_program(tape, allow, Aim::Mixed, 40);
+    let mut tasks = p.tasks.clone();
+    let mut victim_objects = vec![];
+    for t in tasks.iter_mut() {
+        for op in t.ops.iter_mut() {
+            match op {
+                Op::Shutdown | Op::BrokerShutdown => *op = Op::SyncClient,
+                Op::CreateObject { u, .. } if t.client == 0 && !victim_objects.contains(u) => victim_objects.push(*u),
+                _ => {}
+            }
+        }
+    }
+    // a uuid a peer may hold as well says nothing about the victim's cleanup
+    let peers: Vec<u8> = tasks.iter().filter(|t| t.client != 0).flat_map(|t| t.ops.iter()).filter_map(|op| if let Op::CreateObject { u, .. } = op { Some(*u) } else { None }).collect();
+    victim_objects.retain(|u| !peers.contains(u));
+    (Scenario { name: "generated", clients: p.clients.clone(), tasks, victim_objects }, p.sched_seed, p.det_seed, p.policy)
+}
+
+fn decode_generated(class: &str, tape: &[u8]) -> Case15 {
+    let mut t = Tape::new(tape);
+    let sel = t.u8();
+    let point = t.u32();
+    let fifo = |b: u8| if b < 128 { None } else { Some([1usize, 1, 2, 2, 3, 4, 8, 16][(b as usize - 128) % 8]) };
+    let victim_fifo = fifo(t.u8());
+    let peer_fifo = fifo(t.u8());
+    let rest = t.rest();
+    let (sc, sched_seed, det_seed, policy) = generated_scenario(rest);
+    let cause = if class == "fault-generated" {
+        if sel % 2 == 0 {
+            Cause::Fault(FaultKind::Error)
+        } else {
+            Cause::Fault(FaultKind::Eof)
+        }
+    } else {
+        match sel % 5 {
+            0 => Cause::ShutdownRequest,
+            1 => Cause::LastHandleDropped,
+            2 => Cause::BrokerShutdown,
+            3 => Cause::BrokerShutdownConnection,
+            _ if std::env::var("VAPI_EXCLUDE_F9").map(|v| v == "1").unwrap_or(false) => Cause::BrokerShutdown,
+            _ => Cause::ShutdownRequestAndBrokerShutdown,
+        }
+    };
+    let late_abort = !crate::c06::exclude_f5();
+    Case15 { scenario: N_SCENARIOS, cause, point, relative: true, sched_seed, policy, det_seed, late_abort, drop_replies_after_request: false, at_quiescence: false, victim_fifo, peer_fifo, gen: Some(std::sync::Arc::new(sc)) }
+}
+
 fn decode(class: &str, tape: &[u8]) -> Case15 {
+    if class.ends_with("-generated") {
+        return decode_generated(class, tape);
+    }
     let mut t = Tape::new(tape);
     let scenario = t.below(N_SCENARIOS);
     let sel = t.u8();
@@ -315,7 +377,7 @@ fn decode(class: &str, tape: &[u8]) -> Case15 {
     let drop_replies_after_request = class == "clean-late-abort" && late_abort;
     // only these scenarios leave pending replies with the victim's application
     let scenario = if class == "clean-late-abort" { [1, 11][scenario % 2] } else { scenario };
-    Case15 { scenario, cause, point, relative, sched_seed, policy, det_seed, late_abort, drop_replies_after_request, at_quiescence: false, victim_fifo, peer_fifo }
+    Case15 { scenario, cause, point, relative, sched_seed, policy, det_seed, late_abort, drop_replies_after_request, at_quiescence: false, victim_fifo, peer_fifo, gen: None }
 }
 
 pub fn exclude_f7() -> bool {
@@ -397,6 +459,10 @@ fn run_case(c: &Case15) -> Outcome {
             _ => m.steps + 1,
         };
         if range == 0 {
+            if c.gen.is_some() {
+                // a generated program whose victim never touches its transport
+                return Outcome::Pass(PassInfo { nontrivial: false, fp: 0, classes: vec!["generated:victim-idle"] });
+            }
             return Outcome::fail("harness:empty-range", "fault-free run has no transport operation");
         }
         c.point = (c.point as u64 % range) as u32;
@@ -418,7 +484,7 @@ enum Done {
 }
 
 pub fn measure(scenario: usize, sched_seed: u64, policy: u8, det_seed: u64) -> Option<Measure> {
-    let c = Case15 { scenario, cause: Cause::None, point: 0, relative: false, sched_seed, policy, det_seed, late_abort: false, drop_replies_after_request: false, at_quiescence: false, victim_fifo: None, peer_fifo: None };
+    let c = Case15 { scenario, cause: Cause::None, point: 0, relative: false, sched_seed, policy, det_seed, late_abort: false, drop_replies_after_request: false, at_quiescence: false, victim_fifo: None, peer_fifo: None, gen: None };
     let r = vcommon::with_det_seed(det_seed, 1 << 21, move || match execute(&c, Cause::None, 0) {
         Ok(Done::Measured(m)) => Some(m),
         _ => None,
@@ -691,7 +757,7 @@ fn execute(c: &Case15, cause: Cause, point: u32) -> Result<Done, Outcome> {
             classes.push(label);
         }
     }
-    classes.push(SCENARIO_LABELS[c.scenario]);
+    classes.push(if c.gen.is_some() { "scenario:generated" } else { SCENARIO_LABELS[c.scenario] });
     if let Some(n) = c.victim_fifo {
         classes.push("victim-transport:bounded");
         if n <= 2 {
@@ -944,7 +1010,14 @@ async fn probe(w: Rc<World>, cc: Rc<ClientCtx>, rep: Rc<ProbeReport>) {
                 r.start("PendingSender::wait_established");
                 timed(r, x.wait_established()).await;
                 r.start("PendingSender::establish");
-                r.must_fail("PendingSender::establish", timed(r, x.establish()).await);
+                // the other end may have been claimed (and the notification delivered) before the
+                // stop: then the value had arrived and a local Ok is legitimate
+                let claimed = w.board.borrow().chans.get(&x.cookie().0).map(|i| i.claim_ok || i.claim_inflight || i.claim_attempts > 0).unwrap_or(true);
+                if claimed {
+                    r.may_succeed(timed(r, x.establish()).await);
+                } else {
+                    r.must_fail("PendingSender::establish", timed(r, x.establish()).await);
+                }
             }
             Some(SndEnd::Unclaimed(x)) => {
                 val();
